@@ -735,7 +735,74 @@ func c12Class(s c12Sig, args []c12Arg) string {
 	return strings.Join(f, "+")
 }
 
+// c12KeptHelperContexts: the helper context a call receives is that call's own - also when
+// the helper takes it by pointer and keeps it (as contentFor keeps blocks): what it holds
+// (its block, or that it has none) is what was written at that call, after any number of
+// later calls.
+func c12KeptHelperContexts(b *core.B) {
+	for _, byPtr := range []bool{true, false} {
+		for n := 2; n <= 5; n++ {
+			for mask := 0; mask < 1<<n; mask++ {
+				// bit i of mask: call i has a block
+				var src, want strings.Builder
+				for i := 0; i < n; i++ {
+					if mask&(1<<i) != 0 {
+						fmt.Fprintf(&src, "<%% keep(\"k%d\") { %%>B%d<%%= %d %%><%% } %%>", i, i, i)
+					} else {
+						fmt.Fprintf(&src, "<%% keep(\"k%d\") %%>", i)
+					}
+				}
+				src.WriteString("[")
+				want.WriteString("[")
+				for i := n - 1; i >= 0; i-- {
+					fmt.Fprintf(&src, "<%%= replay(\"k%d\") %%>|", i)
+					if mask&(1<<i) != 0 {
+						fmt.Fprintf(&want, "B%d%d|", i, i)
+					} else {
+						want.WriteString("(none)|")
+					}
+				}
+				src.WriteString("]")
+				want.WriteString("]")
+				if !b.Begin(src.String() + fmt.Sprintf("  (helper context by pointer: %v)", byPtr)) {
+					continue
+				}
+				ctx := plush.NewContext()
+				keptP := map[string]*plush.HelperContext{}
+				keptV := map[string]plush.HelperContext{}
+				if byPtr {
+					ctx.Set("keep", func(name string, h *plush.HelperContext) string { keptP[name] = h; return "" })
+				} else {
+					ctx.Set("keep", func(name string, h plush.HelperContext) string { keptV[name] = h; return "" })
+				}
+				ctx.Set("replay", func(name string, h plush.HelperContext) (template.HTML, error) {
+					var k plush.HelperContext
+					if p, ok := keptP[name]; ok {
+						k = *p
+					} else {
+						k = keptV[name]
+					}
+					if !k.HasBlock() {
+						return "(none)", nil
+					}
+					s, err := k.BlockWith(h.New())
+					return template.HTML(s), err
+				})
+				res := render(b, src.String(), ctx)
+				b.NonTrivialStr(src.String(), fmt.Sprint(byPtr))
+				b.Count("helper-contexts-kept-over-later-calls")
+				if res.Pan == nil && (res.Err != nil || res.Out != want.String()) {
+					b.Violate("kept-helper-context-shows-another-call", fmt.Sprintf("want %q, got %s", want.String(), res))
+				}
+			}
+		}
+	}
+}
+
 func c12Run(b *core.B) {
+	if b.Batch == 0 {
+		c12KeptHelperContexts(b)
+	}
 	sigs := c12Sigs(2)
 	b.SetExtra("signatures_in_family", len(sigs))
 	nargKinds := 11
